@@ -604,6 +604,12 @@ func (s *scope) interpretExpression(expr *Expression) pyObject {
 	// Check the optimised sites first
 	if expr.optimised != nil {
 		if expr.optimised.Constant != nil {
+			if l, ok := expr.optimised.Constant.(pyList); ok {
+				// Lists are mutable, so every evaluation of a list literal has to yield a new one;
+				// otherwise assigning to an element changes it for everything else that evaluates
+				// this expression, including other packages using the same subinclude.
+				return copyConstantList(l)
+			}
 			return expr.optimised.Constant
 		} else if expr.optimised.Local != "" {
 			return s.Lookup(expr.optimised.Local)
@@ -1045,6 +1051,19 @@ func (s *scope) callObject(name string, obj pyObject, c *Call) pyObject {
 		s.Error("Non-callable object '%s' (is a %s)", name, obj.Type())
 	}
 	return f.Call(s, c)
+}
+
+// copyConstantList returns a copy of a constant list, including any constant lists within it.
+func copyConstantList(l pyList) pyList {
+	ret := make(pyList, len(l))
+	for i, v := range l {
+		if l2, ok := v.(pyList); ok {
+			ret[i] = copyConstantList(l2)
+		} else {
+			ret[i] = v
+		}
+	}
+	return ret
 }
 
 // Constant returns an object from an expression that describes a constant,
